@@ -95,6 +95,7 @@ type Frame struct {
 	// loops already cut on this path (header -> true) used to detect back edges
 	freeVars map[*ssa.FreeVar]*Val
 	loopHeads map[*ssa.BasicBlock]*loopHead
+	stops []stopRec
 }
 
 func (f *Frame) clone() *Frame {
@@ -125,6 +126,7 @@ type State struct {
 	panicVal  Term
 	// ghost: lock / misc handled through ghost maps in the heap
 	nObl int
+	parkPred *ssa.BasicBlock
 }
 
 func (st *State) clone() *State {
